@@ -63,6 +63,9 @@ fn main() {
         "C07" => c07,
         "C09" => c09,
         "C13" => c13,
+        "C14" => c14,
+        "C15" => c15,
+        "C16" => c16,
         "C18" => c18,
     );
     std::process::exit(code);
